@@ -634,8 +634,10 @@ def gen_rescale(rng, n):
             while N1 == N2:
                 N2 = [F(1)] + Q.rsphere(rng, dim)
         al, be, ga, de = [F(rng.randint(1, 9), rng.randint(1, 4)) for _ in range(4)]
-        while al * de == be * ga:
+        # al = ga or be = de makes s1 - s2 lightlike: the code divides by a = <s1-s2, s1-s2> = 0 (finding, see meta note)
+        while al * de == be * ga or al == ga or be == de:
             de += 1
+            ga += F(1, 2)
         s1 = [al * a + be * b for a, b in zip(N1, N2)]
         s2 = [ga * a + de * b for a, b in zip(N1, N2)]
         u = F(rng.randint(1, 6), rng.randint(1, 4))
@@ -861,8 +863,20 @@ def run_rescale_oracle(inp):
     lp = np.array(inp["lp"])[:, :, None]
     b = _outputs(inp, X * lx, Y * ly, Z * lz, poly * lp, inp["tc"])
     worst = []
+    hs_ok = None
+    if "circle_halfspace_radius" in a:
+        # half-plane geodesics ending near infinity are ill-conditioned (ideal endpoints lose half their digits): compare the rest
+        hs_ok = np.abs(a["circle_halfspace_radius"]) < 20.0
     for k in a:
         u, v = a[k], b[k]
+        if hs_ok is not None and k.startswith("circle_halfspace") and u.shape[:hs_ok.ndim] == hs_ok.shape:
+            if hs_ok.ndim == 0:
+                if not hs_ok:
+                    continue
+            else:
+                u, v = u[hs_ok], v[hs_ok]
+                if u.size == 0:
+                    continue
         if u.shape != v.shape or not (finite(u) and finite(v)):
             worst.append([k, float("inf")])
             continue
@@ -875,6 +889,12 @@ def run_rescale_oracle(inp):
         elif k.endswith("@"):
             dlt = np.abs(u - v) % (2 * math.pi)
             e = float(np.max(np.minimum(dlt, 2 * math.pi - dlt)))
+        elif k.endswith("centre") and k.replace("centre", "radius") in a:
+            # a circle's centre is known to within the precision of its radius (huge circles: geodesics ending near infinity)
+            rr = a[k.replace("centre", "radius")]
+            if hs_ok is not None and k.startswith("circle_halfspace") and hs_ok.ndim and rr.shape == hs_ok.shape:
+                rr = rr[hs_ok]
+            e = float(np.max(np.abs(u - v) / (1 + np.abs(rr))[..., None])) if u.size else 0.0
         else:
             e = err(u, v)
         worst.append([k, e])
